@@ -596,6 +596,17 @@ impl SlabRouter {
     ///
     /// Returns an error if snapshot save or WAL operations fail.
     pub fn checkpoint(&self, snapshot_path: &Path) -> Result<u64, SlabRouterError> {
+        // Everything logged so far must be on disk before the new snapshot replaces the old
+        // one. Under batched/manual sync part of the log may still sit in the writer's buffer;
+        // a crash after the snapshot rename would then replay a stale log prefix over the
+        // newer snapshot and bring old values (or deleted keys) back next to newer ones.
+        if let Some(wal_mutex) = &self.wal {
+            wal_mutex
+                .lock()
+                .fsync()
+                .map_err(|e| SlabRouterError::WalError(format!("Failed to sync WAL: {e}")))?;
+        }
+
         // Save snapshot first
         self.save_to_file(snapshot_path)
             .map_err(|e| SlabRouterError::WalError(format!("Failed to save snapshot: {e}")))?;
